@@ -200,7 +200,7 @@ class C17(Engine):
         if rng.chance(19, 20):
             argv.append(name)
         if rng.chance(1, 30):
-            argv.append(rng.pick(["-bogus", "-address", "-sim_serial", "-set_pc", "second.hex"]))
+            argv.append(rng.pick(["-bogus", "-address", "-sim_serial", "-set_pc", "second.hex", "-disasm_range", "-break_io", "-bin"]))
         plan["argv"] = argv
         plan["mode"] = mode
         # console
